@@ -21,7 +21,7 @@ from vlib import zlit, zlist, blit, coq_opt, coq_list
 LEVEL = 'proof'
 _REPLAY = []      # case objects of --replay, run first like the corpus
 IMPORTS = ['SV.C11.Base', 'SV.C11.Utf8', 'SV.C11.Gen_events', 'SV.C11.Envelope', 'SV.C11.Tick',
-           'SV.C11.Notify', 'SV.C11.Routing', 'SV.C11.Corr']
+           'SV.C11.Notify', 'SV.C11.Routing', 'SV.C11.Capture', 'SV.C11.Listeners', 'SV.C11.Corr']
 HEADER_KEYS = [b'ver', b'server', b'serial', b'pool', b'poolserial', b'eventname', b'len']
 
 # docs/events.rst, written down independently of events.py: concrete class -> event name
@@ -719,10 +719,14 @@ def _run(chk, wd, proved):
             return '(ORemove %s %s)' % (tlit(op[1]), blit(op[2]))
         if op[0] == 'runforever':
             return 'ORunforever'
+        if op[0] == 'add_raises':
+            return '(OAddRaises %s)' % tlit(op[1])
+        if op[0] == 'remove_raises':
+            return '(ORemoveRaises %s)' % tlit(op[1])
         return '(OPass %s)' % zlit(op[1])
 
     def res_term(r):
-        return {True: 'RTrue', False: 'RFalse', None: 'RNone', 'KeyError': 'RKeyError'}[r]
+        return {True: 'RTrue', False: 'RFalse', None: 'RNone', 'KeyError': 'RKeyError', 'Exception': 'RException'}[r]
 
     def add_sup(ops):
         out, stray = I.run_sup_ops(ops)
@@ -742,11 +746,13 @@ def _run(chk, wd, proved):
         if 'script' in obj:
             add_sup([tuple(o) for o in obj['script']])
             chk.dist('corpus:sup')
-    direct = [('add', 'a'), ('add', 'b'), ('remove', 'a', False), ('remove', 'a', True), ('remove', 'b', False)]
+    direct = [('add', 'a'), ('add', 'b'), ('remove', 'a', False), ('remove', 'a', True), ('remove', 'b', False),
+              ('add_raises', 'a'), ('remove_raises', 'a')]
     for n in range(0, 4 if quick else 5):
         for ops in itertools.product(direct, repeat=n):
             add_sup(list(ops))
-    inloop = [('pass', 1), ('pass', 0), ('pass', -1), ('pass', 2), ('add', 'a'), ('remove', 'a', False), ('remove', 'a', True)]
+    inloop = [('pass', 1), ('pass', 0), ('pass', -1), ('pass', 2), ('add', 'a'), ('remove', 'a', False), ('remove', 'a', True),
+              ('add_raises', 'a')]
     for pre in ([], [('add', 'a')], [('add', 'a'), ('add', 'b')]):
         for n in range(0, 4 if quick else 5):
             for ops in itertools.product(inloop, repeat=n):
@@ -760,7 +766,8 @@ def _run(chk, wd, proved):
         for _ in range(rng.randrange(0, 7)):
             ops.append(('pass', rng.choice([1, 1, 1, 0, -1, 2])))
             for _ in range(rng.randrange(0, 3)):
-                ops.append(rng.choice([('add', rng.choice(gnames)), ('remove', rng.choice(gnames), rng.random() < 0.5)]))
+                ops.append(rng.choice([('add', rng.choice(gnames)), ('remove', rng.choice(gnames), rng.random() < 0.5),
+                                       ('add_raises', rng.choice(gnames)), ('remove_raises', rng.choice(gnames))]))
         add_sup(ops)
 
     # ---------------- I. sendRemoteCommEvent through the real XML-RPC handler
@@ -1109,6 +1116,198 @@ def _run(chk, wd, proved):
     chk.note('reject: %d histories with 2-3 pools whose listeners have equal (and different) priorities, every OK/FAIL combination '
              'over two rounds for 2 pools' % n_rej)
 
+    # ---------------- M. PROCESS_COMMUNICATION data through the real capture buffer (BoundIO) and output dispatcher
+    bd_c, bd_m = part('bound', 'Z * list bytes * bytes', 'check_bound')
+    cp_c, cp_m = part('capture', 'Z * list bytes * (text * text * Z * Z * evclass * text * option text * Z) * option bytes',
+                      'check_capture')
+    from supervisor import loggers as _loggers
+    BEGIN, END = events.ProcessCommunicationEvent.BEGIN_TOKEN, events.ProcessCommunicationEvent.END_TOKEN
+
+    def body(n, salt):
+        return bytes(97 + (i * 7 + salt) % 26 for i in range(n))
+
+    def splits(data, k):
+        """k near-equal reads"""
+        n = len(data)
+        cuts = [n * i // k for i in range(k + 1)]
+        return [data[cuts[i]:cuts[i + 1]] for i in range(k)]
+
+    # BoundIO directly: every chunking of short data around small bounds, plus random
+    bound_cases = []
+    for m in (0, 1, 4, 8):
+        for total in range(0, 11):
+            d = body(total, m)
+            for k in (1, 2, 3):
+                bound_cases.append((m, splits(d, k)))
+    for _ in range(150 if quick else 4000):
+        m = rng.choice([1, 5, 16, 64])
+        bound_cases.append((m, [body(rng.choice([0, 1, m - 1, m, m + 1, rng.randrange(0, 2 * m + 2)]), rng.randrange(26))
+                                for _ in range(rng.randrange(1, 5))]))
+    for m, chunks in bound_cases:
+        io = _loggers.BoundIO(m)
+        for c in chunks:
+            io.write(c)
+        r = io.getvalue()
+        bd_c.append('(%s, %s, %s)' % (zlit(m), coq_list(blist(c) for c in chunks), blist(r)))
+        bd_m.append((m, [list(c) for c in chunks]))
+        whole = b''.join(chunks)
+        if (len(whole) <= m and r != whole) or len(r) > m or not whole.endswith(r):
+            chk.violation({'kind': 'capture buffer: data that fits capture_maxbytes is not kept whole (or the buffer exceeds the bound / '
+                                   'is not the newest data)', 'maxbytes': m, 'writes': [list(c) for c in chunks], 'buffer': list(r)})
+    # end to end: capmax-1, capmax, capmax+1 bytes in 1..3 reads
+    for capmax, ks in ((64, (1, 2)), (96, (1, 2, 3)), (46, (1, 2))):
+        for total in (capmax - 1, capmax, capmax + 1):
+            for k in ks:
+                for channel in ('stdout', 'stderr'):
+                    data = body(total, capmax + k)
+                    parts_ = splits(data, k)
+                    reads = [BEGIN + parts_[0]] + parts_[1:] + [END + b'after\n']
+                    res = I.run_capture(capmax, reads, channel=channel)
+                    chk.dist('capture:len%+d:reads%d' % (total - capmax, k))
+                    replay = {'capture_maxbytes': capmax, 'channel': channel, 'reads': [list(r) for r in reads],
+                              'data_written_between_tokens': list(data)}
+                    if len(res) != 1:
+                        chk.violation(dict(replay, kind='not exactly one PROCESS_COMMUNICATION notification for one BEGIN..END section',
+                                           notifications=len(res)))
+                        continue
+                    cn, evdata, serial, ps, stream = res[0]
+                    h = parse_header_bytes(stream)
+                    carried = None
+                    if h is not None:
+                        _kvs, rest = h
+                        carried = rest.partition(b'\n')[2]
+                    distinct.add(('capture', total - capmax, k, None if carried is None else len(carried)))
+                    if carried is None or (total <= capmax and carried != data) or len(carried) > capmax or not data.endswith(carried):
+                        chk.violation(dict(replay, kind='PROCESS_COMMUNICATION notification does not carry what the process wrote '
+                                                        '(whole when it fits capture_maxbytes, else the newest bytes within the bound)',
+                                           carried=None if carried is None else list(carried)))
+                    cls = real_by_name[cn]
+                    cp_c.append('(%s, %s, (%s, %s, %s, %s, %s, %s, %s, %s), %s)' % (
+                        zlit(capmax), coq_list(blist(c) for c in parts_), tlit('supervisor'), tlit('pool'), zlit(serial), zlit(ps),
+                        cn, tlit('worker'), ogroup('grp'), zlit(3131), obytes(stream)))
+                    cp_m.append(replay)
+
+    # ---------------- N. one pool, several listeners: OK / FAIL / malformed result line / reaped while BUSY or UNKNOWN
+    ls_c, ls_m = part('listeners', 'Z * list lop * list (list Z) * list Z', 'check_listeners')
+
+    def listener_script(n, choose, length):
+        """A protocol-conforming script built with plain bookkeeping; returns (ops, per-listener serials, buffer)."""
+        state = ['ack'] * n
+        busy = [None] * n
+        buf = []
+        sent = [[] for _ in range(n)]
+        nxt = [0]
+        ops = []
+
+        def dispatch():
+            while buf:
+                ready = [i for i in range(n) if state[i] == 'ready']
+                if not ready:
+                    break
+                i = ready[0]
+                ev = buf.pop(0)
+                sent[i].append(ev)
+                state[i], busy[i] = 'busy', ev
+
+        for step in range(length):
+            options = ['emit', 'dispatch']
+            for i in range(n):
+                if state[i] == 'ack':
+                    options.append(('ready', i))
+                elif state[i] == 'busy':
+                    options += [('ok', i), ('fail', i), ('garbage', i), ('reap', i)]
+                elif state[i] in ('unknown', 'ready'):
+                    options.append(('reap', i))
+            o = choose(step, options)
+            if o == 'emit':
+                ops.append(('emit',))
+                buf.append(nxt[0])
+                nxt[0] += 1
+            elif o == 'dispatch':
+                ops.append(('dispatch',))
+                dispatch()
+            else:
+                k, i = o
+                ops.append((k, i))
+                if k == 'ready':
+                    state[i] = 'ready'
+                elif k == 'ok':
+                    state[i], busy[i] = 'ack', None
+                elif k == 'fail':
+                    buf.insert(0, busy[i])
+                    state[i], busy[i] = 'ack', None
+                elif k == 'garbage':
+                    buf.insert(0, busy[i])
+                    state[i], busy[i] = 'unknown', None
+                elif k == 'reap':
+                    if state[i] == 'busy':
+                        buf.insert(0, busy[i])
+                    state[i], busy[i] = 'dead', None
+        return ops, sent, list(buf)
+
+    def lop_term(o):
+        return {'emit': 'LEmit', 'dispatch': 'LDispatch'}.get(o[0]) or '(%s %d)' % (
+            {'ready': 'LSayReady', 'ok': 'LOk', 'fail': 'LFail', 'garbage': 'LGarbage', 'reap': 'LReap'}[o[0]], o[1])
+
+    def run_listeners(n, ops, want_sent, want_buf):
+        per_op, left = I.run_listener_history(n, ops)
+        got = [[] for _ in range(n)]
+        timeline = []        # ('sent', listener, serial) / ('ok', listener, serial), in order
+        current = [None] * n
+        bad = None
+        for o, sends in zip(ops, per_op):
+            if o[0] == 'ok':
+                timeline.append(('ok', o[1], current[o[1]]))
+            for i, data in sends:
+                parsed = listener_stream_bytes(data)
+                if parsed is None:
+                    bad = bad or 'unparsable bytes on the stdin of listener %d' % i
+                    continue
+                for kvs, _p in parsed:
+                    sr = parse_dec_bytes(dict(kvs).get(b'serial', b''))
+                    got[i].append(sr)
+                    current[i] = sr
+                    timeline.append(('sent', i, sr))
+        # the judge: after an OK acknowledgement of a serial, nobody is sent that serial again
+        acked = set()
+        for kind, i, sr in timeline:
+            if kind == 'ok':
+                acked.add(sr)
+            elif sr in acked:
+                bad = bad or 'serial %s was sent to listener %d after it had been acknowledged OK' % (sr, i)
+        if got != want_sent or left != want_buf:
+            bad = bad or 'listeners were not sent exactly the events the history entitles them to, in order'
+        chk.dist('listeners:n%d' % n)
+        distinct.add(('listeners', tuple(tuple(x) for x in got), tuple(left)))
+        if bad:
+            chk.violation({'kind': 'one notification per change: ' + bad, 'listeners': n, 'history': [list(o) for o in ops],
+                           'serials_sent_per_listener': got, 'expected': want_sent, 'left_in_buffer': left,
+                           'expected_in_buffer': want_buf, 'timeline': [list(t) for t in timeline]})
+        ls_c.append('(%d, %s, %s, %s)' % (n, coq_list(lop_term(o) for o in ops), coq_list(zlist(x) for x in got), zlist(left)))
+        ls_m.append({'listeners': n, 'history': [list(o) for o in ops]})
+
+    # fixed histories: each way of losing a BUSY listener, followed by its reaping, with a second listener taking over
+    for lose in ('garbage', 'fail', 'reap'):
+        for ack_first in (True, False):
+            ops = [('ready', 0), ('ready', 1), ('emit',), ('emit',), ('dispatch',), (lose, 0)]
+            ops += [('ok', 1), ('ready', 1), ('dispatch',)] if ack_first else [('dispatch',), ('ok', 1), ('ready', 1), ('dispatch',)]
+            ops += [('ok', 1), ('ready', 1)]
+            if lose != 'reap':
+                ops += [('reap', 0)]
+            ops += [('dispatch',), ('emit',), ('dispatch',)]
+            # replay through the bookkeeping to get the expectation
+            it = iter(ops)
+            o2, ws, wb = listener_script(2, lambda step, options: (lambda o: o[0] if o[0] in ('emit', 'dispatch') else o)(next(it)), len(ops))
+            run_listeners(2, o2, ws, wb)
+    for _ in range(150 if quick else 4000):
+        n = rng.choice([2, 2, 3])
+
+        def choose(step, options):
+            w = [(3 if o in ('emit', 'dispatch') else (2 if o[0] in ('ready', 'ok') else 1)) for o in options]
+            return rng.choices(options, weights=w)[0]
+        o2, ws, wb = listener_script(n, choose, rng.randrange(6, 22))
+        run_listeners(n, o2, ws, wb)
+
     # ---------------- compare everything inside Coq
     total = 0
     for name, (ctype, fn, cases, meta) in parts.items():
@@ -1216,6 +1415,8 @@ def _judge_sup(chk, ops, out):
             if op[1] in groups and not op[2]:
                 groups.remove(op[1])
                 want = [('ProcessGroupRemovedEvent', 'groupname:%s\n' % op[1])]
+        elif op[0] in ('add_raises', 'remove_raises'):
+            want = []       # the addition / removal did not happen: nothing may be announced
         elif op[0] == 'runforever':
             want = [('SupervisorRunningEvent', '')]
         elif op[0] == 'pass':
